@@ -61,6 +61,9 @@ SCALED = [
      "rows": [row([2 * P17], "ge", 2 * P17 + 1), row([2 * P17], "le", 2 * P17)]},
     {"id": "h_scale_negative_rhs", "sense": "min", "obj": [2 * P17], "off": 0, "den": 2 * P17, "vars": [NN("v0")], "rows": [row([2 * P17], "le", -1)]},
     {"id": "h_scale_eq_contradiction", "sense": "max", "obj": [0], "off": 0, "den": P17, "vars": [R("v0")], "rows": [row([-2], "eq", 4), row([3], "eq", -7)]},
+    # right-hand sides and bounds of size 1e7: the two-phase start must not take round-off of that size for infeasibility
+    {"id": "h_scale_large_rhs", "sense": "max", "obj": [3], "off": 0, "den": 1, "vars": [NN("v0")], "rows": [row([2], "eq", 16000000), row([12], "ge", 7000000)]},
+    {"id": "h_scale_wide_bound", "sense": "max", "obj": [1], "off": 0, "den": 1, "vars": [R("v0", lo=B(0, -10000000), hi=B(0, -4))], "rows": [row([3], "le", -1)]},
     {"id": "h_scale_domain", "sense": "max", "obj": [0, 0, 0], "off": 0, "den": P17, "vars": [R("v0", lo=B(0, -1), hi=B(0, 3)), R("v1", lo=B(0, -3), hi=B(0, -1)), R("v2")],
      "rows": [row([2, 4, 0], "ge", -5), row([-4, 0, 0], "ge", -2), row([0, 1, -3], "eq", 3)]},
 ]
